@@ -30,12 +30,15 @@ type Case struct {
 	// Amend[i] = j: commit i is written with CommitOptions.AmendedCommit = address of commit j on j's
 	// dataset (dolt commit --amend / squash: same parents as j, j's branch then points at i).
 	Amend map[string]int `json:"amend,omitempty"`
+	// Sel: the commits whose stored closure is reported (nil = all). Large histories report only a few.
+	Sel []int `json:"sel,omitempty"`
 }
 
 type Obs struct {
 	Heights  []int     `json:"heights"`
 	Parents  [][]int   `json:"parents"`
-	Closures [][][]int `json:"closures"` // per commit: [height, index] in IterAllReverse order
+	Closures [][][]int `json:"closures"` // per selected commit: [height, index] in IterAllReverse order
+	Levels   []int     `json:"levels"`   // per commit: number of levels of the prolly tree holding its closure (0 = none)
 	Stable   bool      `json:"stable"`
 	Rank     []int     `json:"rank"` // rank[i] = position of commit i's address in byte order
 	Unstable string    `json:"unstable,omitempty"`
@@ -175,6 +178,25 @@ func (g *Graph) Closure(ctx context.Context, c *datas.Commit) ([][]int, error) {
 	return out, nil
 }
 
+func (g *Graph) closureLevels(ctx context.Context, i int) int {
+	c, err := g.Load(ctx, i)
+	if err != nil {
+		return -1
+	}
+	sm, ok := c.NomsValue().(types.SerialMessage)
+	if !ok {
+		return -1
+	}
+	cc, err := datas.NewParentsClosure(ctx, c, sm, g.VRW, g.NS)
+	if err != nil {
+		return -1
+	}
+	if cc.IsEmpty() {
+		return 0
+	}
+	return cc.Height()
+}
+
 type snapshot struct {
 	height  int
 	parents []int
@@ -263,7 +285,12 @@ func Run(raw json.RawMessage) (any, error) {
 	if err != nil {
 		return nil, err
 	}
-	o := Obs{Heights: []int{}, Parents: [][]int{}, Closures: [][][]int{}, Rank: g.Rank()}
+	o := Obs{Heights: []int{}, Parents: [][]int{}, Closures: [][][]int{}, Levels: []int{}, Rank: g.Rank()}
+	sel := map[int]bool{}
+	for _, i := range c.Sel {
+		sel[i] = true
+	}
+	closures := map[int][][]int{}
 	for i := range c.H {
 		if unstable == "" {
 			unstable = g.stillSame(ctx, i, snaps[i])
@@ -275,7 +302,20 @@ func Run(raw json.RawMessage) (any, error) {
 		}
 		o.Heights = append(o.Heights, s.height)
 		o.Parents = append(o.Parents, s.parents)
-		o.Closures = append(o.Closures, s.closure)
+		closures[i] = s.closure
+		o.Levels = append(o.Levels, g.closureLevels(ctx, i))
+	}
+	if c.Sel == nil {
+		for i := range c.H {
+			o.Closures = append(o.Closures, closures[i])
+		}
+	} else {
+		for _, i := range c.Sel {
+			if i < 0 || i >= len(c.H) {
+				return nil, fmt.Errorf("sel: %d out of range", i)
+			}
+			o.Closures = append(o.Closures, closures[i])
+		}
 	}
 	o.Stable = unstable == ""
 	o.Unstable = unstable
